@@ -303,8 +303,8 @@ static void run_prog (void *arg) {
 			}
 			break; }
 		case OP_DBG_MU: case OP_DBG_MUW: case OP_DBG_CV: case OP_DBG_CVW: {
-			static char area[64 + 256 + 64]; char *buf = area + 64; int n = o->b; int k; int bad = 0; const char *api;
-			memset (area, 0xA5, sizeof (area));
+			static char areas[16][64 + 256 + 64]; char *area = areas[me]; char *buf = area + 64; /* one buffer per fiber: the calls interleave */ int n = o->b; int k; int bad = 0; const char *api;
+			memset (area, 0xA5, sizeof (areas[0]));
 			api = o->code == OP_DBG_MU ? "nsync_mu_debug_state" : o->code == OP_DBG_MUW ? "nsync_mu_debug_state_and_waiters" : o->code == OP_DBG_CV ? "nsync_cv_debug_state" : "nsync_cv_debug_state_and_waiters";
 			vf_log ("call %s %s%d %d", api, o->code <= OP_DBG_MUW ? "mu" : "cv", o->a, n);
 			vf_api_enter ();
@@ -314,7 +314,7 @@ static void run_prog (void *arg) {
 			else { nsync_cv_debug_state_and_waiters (&cvs[o->a], buf, n); }
 			vf_api_leave ();
 			for (k = 0; k != 64; k++) { if ((unsigned char) area[k] != 0xA5) { bad = 1; } }
-			for (k = 64 + (n > 0 ? n : 0); k != (int) sizeof (area); k++) { if ((unsigned char) area[k] != 0xA5) { bad = 1; } }
+			for (k = 64 + (n > 0 ? n : 0); k != (int) sizeof (areas[0]); k++) { if ((unsigned char) area[k] != 0xA5) { bad = 1; } }
 			if (bad) { vf_violation ("debug-buffer", "%s wrote outside buf[0..%d)", api, n); }
 			if (n >= 1 && memchr (buf, 0, n) == NULL) { vf_violation ("debug-buffer", "%s result not NUL-terminated (n=%d)", api, n); }
 			vf_log ("ret %s -", api);
